@@ -1,5 +1,6 @@
 import Texel.Proofs.Chain
 import Texel.Proofs.Vertices
+import Texel.Proofs.SplitInv
 import Texel.Model.RingF
 /-! # C18 — moderately collapsing polygons are reduced without inventing geometry   (partial)
 
@@ -51,6 +52,21 @@ theorem C18_no_vertex_invented (g : Grid) (hot : Nat → Quad → Bool) (cfg : C
   intro pg hpg r hr v hv
   obtain ⟨ring, hring, cw, s, hs, q, hq, hvq⟩ := processLevel_V g hot cfg l rings polys h pg (by simpa using hpg) r hr v hv
   exact ⟨ring, hring, cw, s, hs, q, hq, hvq⟩
+
+/-- **ring splitting invents no area and loses none**: `splitRing` cuts a ring (whose unflagged vertices occur once — the flags of
+`checkPointHits` are exact, `Proofs/HitCount.lean`) into closed rings that visit no vertex twice and whose signed areas (`closedSum`,
+equal to `area2` for rings of at least three vertices: `closedSum_eq_area2`) add up to the signed area of the ring; `classify` then sorts
+them into shell parts, hole parts and points/lines. Zero-width parts are split off as rings of zero area. -/
+theorem C18_split_preserves_area (ring : List P) (isOuter : Bool) (isHit : P → Bool) (hne : ring ≠ [])
+    (hflags : ∀ pre v suf, ring = pre ++ v :: suf → isHit v = false → v ∉ pre ∧ v ∉ suf) :
+    ∃ rings : List (List P), splitRingF ring isOuter isHit = .ok (classify isOuter rings) ∧ (∀ r ∈ rings, r.Nodup) ∧
+      (rings.map closedSum).sum = closedSum ring :=
+  splitRingF_area ring isOuter isHit hne hflags
+
+-- non-vacuity: two triangles meeting in the pinch point (1,1), which is flagged: the ring is cut there into its two lobes
+#guard (splitRingF [(0, 0), (1, 1), (2, 0), (2, 2), (1, 1), (0, 2)] true (fun p => p == (1, 1))).toOption.map
+    (fun sp => (sp.outers.toList.map Array.toList, sp.inners.toList.map Array.toList)) == some ([[(0, 0), (1, 1), (0, 2)], [(1, 1), (2, 0), (2, 2)]], [])
+#guard closedSum [(0, 0), (1, 1), (0, 2)] + closedSum [(1, 1), (2, 0), (2, 2)] == closedSum [(0, 0), (1, 1), (2, 0), (2, 2), (1, 1), (0, 2)]
 
 example : maxVisits [[(0, 0), (1, 0), (0, 0), (2, 2)], [(5, 5)]] = 2 := by decide
 
